@@ -152,7 +152,8 @@ def rule_R4(chk, repo, rid='C07.R4'):
     n = 0
     for cname, lmin in DOMAIN_MIN.items():
         ci = repo.cls(cname)
-        init = ci.methods['__init__']
+        from ..normal import class_method as _cm
+        init = _cm(ci.methods['__init__'])
         fq, leaves = tb.family_nests(init.node, tb.self_attr_root('self'))
         fams = {f for f in fq if f != 'L'}
         depth = {}
@@ -162,8 +163,8 @@ def rule_R4(chk, repo, rid='C07.R4'):
         recs = creation_records(init.node, fams)
         facts = rg.h_facts() + [Affine.sym('L') - Affine.const(lmin)]
         for mname in ('generate_graph', 'copy_nids'):
-            from ..normal import wrap, dictcomp_to_loops
-            fi = wrap(canonical(ci.methods[mname], CLASS_L_ROLES), dictcomp_to_loops)
+            from ..normal import class_method
+            fi = class_method(ci.methods[mname])
             for fam, ukeys, uctx, node in family_uses(fi.node, fams, depth):
                 ok, detail = False, 'family has no creation record'
                 for rec in recs.get(fam, []):
